@@ -31,7 +31,9 @@ RULE = (
     "training set is not the complement of the test set, and the default (cv=None), all behind a recording proxy; scorers None, r2, neg MSE / "
     "RMSE / MAE and a harness callable. Every cross_val_score case runs serially and as dask.delayed under 8 schedules (synchronous; threads "
     "with 2/4/16 workers and switch interval 1e-5; reversed and random submission order; one score at a time, synchronous and threaded). "
-    "SplineCV: grids of 1-4 dampings x 1-2 mindists (also the default grid and damping=None), serial and delayed. train_test_split: plain, "
+    "SplineCV: grids of 1-4 dampings x 1-2 mindists (also the default grid and damping=None), serial and delayed; re-configuration histories "
+    "(dampings / mindists / scoring / cv / delayed changed by set_params or attribute assignment before the first fit and between two fits, "
+    "second fit on the same or on other data), every fit judged with the parameters in force. train_test_split: plain, "
     "shape and spacing blocks. Non-trivial = at least 2 splits with scores not all equal and not all 1 (cross_val_score); score != 1 (score); "
     ">= 3 occupied blocks (blocked train_test_split); >= 2 candidates whose mean scores differ by more than 10 tolerances (SplineCV). "
     "Distinct = hash of coordinates, data, estimator parameters, cross-validator, scorer and test sets."
@@ -60,6 +62,12 @@ FLOORS = {
     "quick": dict({"eval:" + k: v for k, v in _Q.items()}, distinct_nontrivial=74, schedules_with_overlapping_tasks=40,
                   schedules_completed_out_of_split_order=85, **{"schedule:" + s: 17 for s in W.SCHEDULES},
                   **{"eval:score_vs_flat_reference": 28, "eval:cv_sees_rows_in_split_order": 59},
+                  # deep "left untouched" on meta-estimators / already fitted estimators, SplineCV re-configuration histories
+                  **{"eval:meta_estimator_untouched_deeply": 70, "eval:fitted_estimator_predicts_the_same": 30, "eval:splinecv_current_grid": 8,
+                     "eval:splinecv_history_fit_judged": 8, "eval:splinecv_parameters_kept": 8, "class:splinecv_history:how:attribute": 8,
+                     "class:splinecv_history:how:set_params": 8, "class:splinecv_history:when:before_first_fit": 8,
+                     "class:splinecv_history:when:between_fits": 7, "class:splinecv_history:second_fit_on_other_data": 1},
+                  **{"class:splinecv_history:changed:" + k: 2 for k in ("dampings", "mindists", "scoring", "cv", "delayed")},
                   # memory layouts of the 2-D gridded datasets (each array draws its layout independently)
                   **{"class:array_layout:" + k: 12 for k in W.ARRAY_LAYOUTS}, **{"class:score_array_layout:" + k: 6 for k in W.ARRAY_LAYOUTS},
                   **{"class:splinecv:two_dimensional_grid": 2, "class:layout:2d": 24, "class:layout:2d:arrays_in_different_memory_orders": 24, "class:layout:2d:mesh": 8,
@@ -77,6 +85,21 @@ FLOORS = {
     }.items()}, distinct_nontrivial=2860, knn1_cases=120, schedules_with_overlapping_tasks=1880, schedules_completed_out_of_split_order=3600,
         **{"schedule:" + s: 640 for s in W.SCHEDULES},
         **{"eval:score_vs_flat_reference": 960, "eval:cv_sees_rows_in_split_order": 2290},
+        **{"class:splinecv_history:changed:cv": 132,
+           "class:splinecv_history:changed:dampings": 127,
+           "class:splinecv_history:changed:delayed": 88,
+           "class:splinecv_history:changed:mindists": 130,
+           "class:splinecv_history:changed:scoring": 129,
+           "class:splinecv_history:how:attribute": 304,
+           "class:splinecv_history:how:set_params": 306,
+           "class:splinecv_history:second_fit_on_other_data": 72,
+           "class:splinecv_history:when:before_first_fit": 309,
+           "class:splinecv_history:when:between_fits": 304,
+           "eval:fitted_estimator_predicts_the_same": 1899,
+           "eval:meta_estimator_untouched_deeply": 3715,
+           "eval:splinecv_current_grid": 255,
+           "eval:splinecv_history_fit_judged": 256,
+           "eval:splinecv_parameters_kept": 256},
         **{"class:array_layout:" + k: 640 for k in W.ARRAY_LAYOUTS}, **{"class:score_array_layout:" + k: 320 for k in W.ARRAY_LAYOUTS},
         **{"class:splinecv:two_dimensional_grid": 48, "class:layout:2d": 970, "class:layout:2d:arrays_in_different_memory_orders": 930, "class:layout:2d:mesh": 390,
            "class:array_layout:coordinate:other-memory-order": 1600, "class:array_layout:data:other-memory-order": 1080,
@@ -88,8 +111,8 @@ CASE_TIMEOUT_S = 300
 
 def plan(tier):
     if tier == "quick":
-        return collections.OrderedDict(cv=50, score=12, tts=10, splinecv=14)
-    return collections.OrderedDict(cv=1600, score=400, tts=400, splinecv=480, client=32)
+        return collections.OrderedDict(cv=44, score=12, tts=10, splinecv=12, history=10)
+    return collections.OrderedDict(cv=1600, score=400, tts=400, splinecv=480, client=32, history=320)
 
 
 def install(tap, run):
@@ -111,6 +134,8 @@ def run_case(run, tap, stream, index, rng):
                 W.case_tts(run, rng, vd)
             elif stream == "splinecv":
                 W.case_splinecv(run, rng, vd, index=index)
+            elif stream == "history":
+                W.case_splinecv_history(run, rng, vd, index)
             elif stream == "client":
                 W.case_client(run, rng, vd, index)
         finally:
